@@ -13,7 +13,9 @@ def gen(chk, mdl):
     refs += ["./b:c/" + "/".join(t) for n in range(1, 4) for t in __import__("itertools").product(["..", ".", "x", ""], repeat=n)]
     refs = [r for r in sorted(set(refs)) if "%2e" not in r.lower()]          # the property excludes percent-encoded dot segments
     bases = [t for t in uris.valid_texts(mdl, uris.small_texts(2, queries=(None, "q"))) if t.startswith("s:")]
-    bases += ["s://u@[::1]:8/a/b?q", "S://H/%41/b", "s:a/b/c", "s:/a/b/c"]
+    bases += ["s://u@[::1]:8/a/b?q", "S://H/%41/b", "s:a/b/c", "s:/a/b/c", "s://h/a/b/c/d;p?q", "s:/a/b/c/d/e", "s:a/b/c/d"]
+    # long runs of ".." (only a base several levels deep tells them apart)
+    refs += ["../../../g", "../../../../g/h", "../../..", "../.././../g", "x/../../../../g", "../../x/../../g?q#f", "../../../../..", "a/../../../.."]
     return refs, sorted(set(bases))
 
 def run(chk):
@@ -23,7 +25,9 @@ def run(chk):
     refs, bases = gen(chk, mdl)
     H = uris.hist
     pairs = [(r, b) for b in bases for r in refs]
-    if chk.tier == "quick" and len(pairs) > 70000: pairs = chk.rng.sample(pairs, 70000)
+    if chk.tier == "quick" and len(pairs) > 70000:
+        deep = [(r, b) for (r, b) in pairs if r.count("..") >= 3 and b.count("/") >= 4]
+        pairs = chk.rng.sample(pairs, 70000) + deep
     # slot 0 = R, 1 = B, 2 = normalized copy of R; 3 = N(resolve(N(R),B)); 4 = N(resolve(R,B))
     reqs = [H([('p', 0, r), ('p', 1, b), ('p', 2, r), ('n', 2, 63), ('a', 3, 2, 1, 0), ('n', 3, 63), ('a', 4, 0, 1, 0), ('n', 4, 63), ('e', 3, 4)]) for r, b in pairs]
     model = lib.run_lines(mdl, reqs)
